@@ -1,2 +1,6 @@
+import Ztr.Generated.Facts
 import Ztr.Model.Filter
+import Ztr.Model.Layers
 import Ztr.Props.C08
+import Ztr.Lemmas.Layers
+import Ztr.Props.C10
